@@ -12,11 +12,12 @@
 // Output:  err <PageDOMError variant>            (err-badloc if the location is not inside the buffer)
 //       |  ok R[c=..;r=..;k=..] N<id>[p=..;c=..;r=..;k=..] P<id>[p=..;r=..;s=..] ... FD[ids] FS[ids]
 // A self-referential /Kids or /Contents object overflows the stack of the unfixed code: the process
-// dies and ./check records crash:<rc> for the case.
+// dies and ./check records crash:<rc> for the case.  A case that does not finish within 4 s kills
+// the process with exit code 3 (crash:3).
 //
 // The library prints diagnostics with println!; file descriptor 1 is therefore redirected to
 // /dev/null and the protocol is written to a duplicate of the original stdout.
-use parsley_rust::pcore::parsebuffer::{LocatedVal, ParseBuffer, ParseBufferT};
+use parsley_rust::pcore::parsebuffer::{LocatedVal, ParseBuffer};
 use parsley_rust::pdf_lib::catalog::catalog_type;
 use parsley_rust::pdf_lib::pdf_obj::{parse_pdf_indirect_obj, ObjectId, PDFObjContext, PDFObjT};
 use parsley_rust::pdf_lib::pdf_page_dom::{
@@ -334,6 +335,10 @@ fn run(line: &str) -> String {
     }
 }
 
+use std::sync::atomic::{AtomicBool, AtomicU64, Ordering};
+static CASE_NO: AtomicU64 = AtomicU64::new(0);
+static BUSY: AtomicBool = AtomicBool::new(false);
+
 extern "C" {
     fn dup(fd: i32) -> i32;
     fn dup2(a: i32, b: i32) -> i32;
@@ -355,10 +360,32 @@ fn main() {
     unsafe { dup2(devnull.as_raw_fd(), 1) };
     let mut out = unsafe { std::fs::File::from_raw_fd(saved) };
     std::panic::set_hook(Box::new(|_| {}));
+    // watchdog: a case that runs for more than 4 s (a non-terminating DOM construction) kills the
+    // process with exit code 3; ./check records crash:3 for exactly that case and goes on
+    std::thread::spawn(|| {
+        let mut last = 0u64;
+        let mut stuck = 0;
+        loop {
+            std::thread::sleep(std::time::Duration::from_millis(500));
+            let cur = CASE_NO.load(Ordering::SeqCst);
+            if BUSY.load(Ordering::SeqCst) && cur == last {
+                stuck += 1;
+                if stuck >= 8 {
+                    std::process::exit(3);
+                }
+            } else {
+                stuck = 0;
+                last = cur;
+            }
+        }
+    });
     let stdin = std::io::stdin();
     for line in stdin.lock().lines() {
         let line = line.unwrap();
+        CASE_NO.fetch_add(1, Ordering::SeqCst);
+        BUSY.store(true, Ordering::SeqCst);
         let r = std::panic::catch_unwind(|| run(&line));
+        BUSY.store(false, Ordering::SeqCst);
         let s = match r {
             Ok(s) => s,
             Err(e) => {
